@@ -80,7 +80,7 @@ func concCases() []cp.Case {
 		})
 	}
 	for _, a := range []struct {
-		key, num   uint8
+		key, num  uint8
 		maj, flat bool
 	}{{2, 2, true, false}, {8, 4, false, true}} {
 		a := a
